@@ -185,7 +185,10 @@ def _replay_c11(case: dict) -> List[str]:
 
 PROPS["C11"] = {"theorems": ["C11_scalar", "C11_scalar_schema", "C11_scalar_validator", "AccSem_step", "AccSem_preds",
                              "predSchema_keys", "PredOK_minLength", "PredOK_maxLength", "PredOK_exactLength", "PredOK_min",
-                             "PredOK_max", "PredOK_equalTo", "PredOK_choices"],
+                             "PredOK_max", "PredOK_equalTo", "PredOK_choices", "parsePat_source", "patHolds_prefix",
+                             "patHolds_suffix", "PredOK_startsWith", "PredOK_endsWith", "PredOK_regex_partial",
+                             "PredOK_notBlank_partial"],
+                "modules": ["KodaModel.Properties.C11", "KodaModel.Properties.C11Pat"],
                 "run": _run_c11, "replay": _replay_c11,
                 "rule": "validator trees of the JSON-native fragment to depth 3 (scalars with every supported predicate, "
                         "lists / uniform / n-tuples, string-keyed maps, the five record kinds with optional keys and both "
